@@ -1,7 +1,16 @@
 """C01 Conflict simplification and flattening preserve meaning (spec/MergeAlgebra)."""
 import vf
 
-LEVEL = "model_checking"
+META = dict(
+    category='model_checking',
+    engine='MergeAlgebra',
+    technique='TLA+ spec MergeAlgebra: TLC exhaustive on the model + TLC-judged traces of the real Merge<T>',
+    text='TLC proves the transcribed simplify/flatten/write-back meet the C01 contracts for every merge over 3 values up to 7 terms (4 values/9 terms thorough) and every 3x3 nesting; the real Merge<T> is then run on the same exhaustive domain plus random merges up to 31 terms and every call is judged by TLC against the same contracts (trace validation, I->S). Exhaustive within the bounds, sampled beyond.',
+    note='Values are integers (Merge<T> is generic in T: Eq). Trusted: TLC, the 60-line recorder in harness/jjconf/src/m_merge.rs.',
+    design='4 C01',
+)
+READY = True
+LEVEL = META["category"]
 
 
 def nontrivial(r):
@@ -24,7 +33,7 @@ def run(ctx):
     # 2. binding I->S: the real Merge<T> on the same exhaustive domain + random, judged by TLC
     trace = ctx.path("c01.ndjson")
     V, L = ctx.q((3, 7), (4, 9))
-    ctx.harness("jjconf", ["merge", "record", "--what", "c01", "--out", trace, "--seed", ctx.seed,
+    ctx.harness("merge", ["record", "--what", "c01", "--out", trace, "--seed", ctx.seed,
                            "--values", V, "--maxlen", L, "--random", ctx.q(2000, 50000)])
     j = vf.judge_records(ctx, "Trace_MergeAlgebra", trace, nontrivial_fn=nontrivial)
     recs = j["records"]
